@@ -924,6 +924,32 @@ def check_permutations(ctx, chk):
         chk.undecided("C15.hosts", "uniform branch: the all-False configuration is excluded",
                       "shape of _permutations / of the slice not recognised", pm.module.path)
         return
+    # which list sizes the two configuration pools are enumerated for: services first, processes
+    # second (that is how _generate_uniform_hosts consumes the pair)
+    fi_, ip_, s_, cn_ = method_run(ctx, "_possible_host_configs", no_inline=("_permutations",))
+    sizes = None
+    if len(s_.returns) == 1 and s_.returns[0][1][0] == "tuple" and len(s_.returns[0][1][1]) == 2:
+        sizes = []
+        for part in s_.returns[0][1][1]:
+            calls_ = []
+
+            def walk(t):
+                if isinstance(t, tuple):
+                    if len(t) >= 3 and t[0] == "call" and isinstance(t[1], str) \
+                            and t[1].endswith("._permutations"):
+                        calls_.append(t)
+                    for x in t:
+                        walk(x)
+            walk(part)
+            sizes.append(cn_.show(calls_[0][2][-1]) if len(calls_) == 1 and calls_[0][2] else None)
+    desc_sz = ("uniform branch: service configurations are enumerated for len(services), process "
+               "configurations for len(processes)")
+    if sizes is None or None in sizes:
+        chk.undecided("C15.hosts", desc_sz, "the pair returned by _possible_host_configs is not "
+                      f"decoded: {[cn_.show(t)[:80] for _, t in s_.returns]}", ph.module.path)
+    else:
+        chk.ob("C15.hosts", desc_sz, sizes == ["len(G.services)", "len(G.processes)"], str(sizes),
+               f"{ph.module.path}:{ph.node.lineno}")
     ok = (drops == {"last"} and last_false) or (drops == {"first"} and first_false)
     chk.ob("C15.hosts", "uniform branch: the one configuration dropped from _permutations(n) is the "
            "all-False row (every host keeps >= 1 service and >= 1 process)", bool(ok),
